@@ -153,9 +153,9 @@ Proof.
   - simpl. split; [constructor|]. intros; tauto.
   - destruct (ssorted_inv _ _ _ H) as [S F]. simpl.
     destruct (less rev n x) eqn:E.
-    + destruct (IH S) as [IH1 IH2]. split; auto. intros y. rewrite IH2. split; [tauto|].
+    + destruct (IH S) as [IH1 IH2]. split; auto. intros y. rewrite IH2. cbn [In]. split; [tauto|].
       intros [[Hy|Hy] Hl]; [|tauto]. subst y. congruence.
-    + split; auto. intros y. split; [|tauto]. intros Hy. split; auto.
+    + split; auto. intros y. cbn [In]. split; [|tauto]. intros Hy. split; auto.
       destruct Hy as [Hy|Hy]; [subst; auto|].
       apply F in Hy. destruct (less rev y x) eqn:E2; auto.
       rewrite (less_trans _ _ _ _ Hy E2) in E. discriminate.
@@ -172,13 +172,13 @@ Proof.
     { intros y Hy. rewrite Hn'. apply Fr in Hy. apply less_asym in Hy. tauto. }
     assert (Hrec : In x (nand_drain rev (skip_less rev a neg) reg) <-> In x reg /\ ~ In x neg).
     { rewrite (IH _ x Sn' Sr). split; intros [H1 H2]; split; auto; rewrite <- (Hrest x H1) in *; auto. }
-    cbn [nand_drain].
-    destruct (skip_less rev a neg) as [|n neg'] eqn:Esk.
+    cbn [nand_drain]. clear Hrest. revert Sn' Hn' Hrec.
+    destruct (skip_less rev a neg) as [|n neg']; intros Sn' Hn' Hrec.
     + simpl. rewrite Hrec. split; [|tauto].
       intros [Hx|Hx]; [|tauto]. subst x. split; auto. intros Hin.
       assert (In a []) by (apply Hn'; split; auto; apply less_irrefl). contradiction.
     + destruct (N.eqb_spec n a) as [Ena|Ena].
-      * subst n. rewrite Hrec. split; [tauto|].
+      * subst n. rewrite Hrec. cbn [In]. split; [tauto|].
         intros [[Hx|Hx] Hnot]; [|tauto]. subst x. exfalso. apply Hnot.
         apply (Hn' a). left; reflexivity.
       * simpl. rewrite Hrec. split; [|tauto].
